@@ -20,7 +20,20 @@ func init() {
 		buf := make([]byte, len(prefix), len(prefix)+16)
 		copy(buf, prefix)
 		out := quicwire.AppendVarint(buf, v)
-		return "ok " + hxv(out)
+		res := "ok " + hxv(out)
+		// results of appends to an empty destination are scratch the caller reuses and overwrites
+		s0 := quicwire.AppendVarint(nil, v)
+		s0 = quicwire.AppendVarint(s0[:0], v^0x2a&0x3f)
+		for i := range s0 {
+			s0[i] = 0xee
+		}
+		if again := quicwire.AppendVarint(buf[:len(prefix)], v); "ok "+hxv(again) != res {
+			return "second-encoding-differs " + hxv(again)
+		}
+		if e := quicwire.AppendVarint(nil, v); !bytes.Equal(e, out[len(prefix):]) {
+			return "encoding-into-empty-destination-differs " + hxv(e)
+		}
+		return res
 	}
 	replayers["c19.size"] = func(c *Ctx, a []string) string {
 		v, _ := strconv.ParseUint(a[0], 10, 64)
@@ -233,7 +246,12 @@ func runC19(c *Ctx) {
 		rem := r.IntN(70)
 		body := r.Bytes(rem)
 		var declared uint64
-		switch r.IntN(9) {
+		switch r.IntN(11) {
+		case 9:
+			// a multiple of 2^32 (or 2^16, 2^31, 2^8) plus something that fits: truncation to a narrower type would accept it
+			declared = uint64(1+r.IntN(1<<20))<<32 + uint64(r.IntN(rem+1))
+		case 10:
+			declared = uint64(1)<<[]uint{8, 16, 31, 32, 33, 48, 61}[r.IntN(7)] + uint64(r.IntN(rem+1))
 		case 0:
 			declared = uint64(rem)
 		case 1:
